@@ -46,6 +46,11 @@ var pureExterns = map[string]bool{
 }
 
 func isPureByPackage(pp string) bool {
+	// logging / tracing / metrics have no effect on the state under contract; the sync
+	// primitives are no-ops in a sequential semantics (no schedule is modelled)
+	if pp == "sync" || pp == "sync/atomic" {
+		return true
+	}
 	for _, p := range []string{"log/slog", "github.com/els0r/telemetry", "go.opentelemetry.io", "github.com/prometheus"} {
 		if strings.HasPrefix(pp, p) {
 			return true
@@ -192,6 +197,7 @@ func (f *Frame) havocAll(why string) {
 		fresh := f.u.mc.NewBase("hv", m.sort, nil)
 		f.cur.mem.m[k] = f.u.mc.HavocObjs(m, limit, fresh)
 	}
+	f.havocMaps(&f.cur.mem, limit)
 	if fs := f.frameSpecActive(); fs != nil && !f.spec {
 		f.u.addObl("frame", f.anchorFor("havoc:"+why), f.cur.reach, tb.False(), token.Position{}, "unmodelled effect ("+why+") cannot be shown to respect the assigns clause")
 	}
@@ -236,6 +242,13 @@ func (f *Frame) callFunc(fn *ssa.Function, args [][]*Term, bindings [][]*Term, i
 	}
 	if con != nil && !forceInline && !f.spec {
 		return f.callByContract(fn, con, args, bindings, in, rt, anchor)
+	}
+	if pp0 := fnPkgPath(fn); pureExterns[pp0+"."+funcKey(fn)] || isPureByPackage(pp0) {
+		q0 := pp0 + "." + funcKey(fn)
+		f.u.Trusted["pure (no effect on verified state): "+q0] = true
+		r := f.u.freshValue("ext", rt)
+		f.resultFacts(rt, r, q0)
+		return r
 	}
 	// spec mode or no contract: inline when possible
 	if len(fn.Blocks) > 0 && f.depth < maxInlineDepth && f.inlinable(fn) {
@@ -666,6 +679,7 @@ func (f *Frame) havocRegions(mem MemState, regs []region, all bool) MemState {
 		for k, m := range out.m {
 			out.m[k] = f.u.mc.HavocObjs(m, limit, f.u.mc.NewBase("hv", m.sort, nil))
 		}
+		f.havocMaps(&out, limit)
 		return out
 	}
 	for _, r := range regs {
